@@ -57,6 +57,10 @@ func openWriter(path string, timeout time.Duration) *os.File {
 
 // startDaemon: sshdFifo / auditFifo false = the path is a regular file; out = path of the output
 // file ("" = a fresh regular file)
+// daemonPrior: what the events output (a regular file) already holds when the daemon starts — the events of an earlier
+// run, which the daemon must leave alone and append to
+var daemonPrior []byte
+
 func startDaemon(sshdFifo, auditFifo bool, out string) (*daemon, error) {
 	bin := os.Getenv("VERIF_DAEMON")
 	if bin == "" {
@@ -82,7 +86,7 @@ func startDaemon(sshdFifo, auditFifo bool, out string) (*daemon, error) {
 	d.outPath = out
 	if out == "" {
 		d.outPath = filepath.Join(dir, "events.log")
-		os.WriteFile(d.outPath, nil, 0o600)
+		os.WriteFile(d.outPath, daemonPrior, 0o600)
 	}
 	d.cmd = exec.Command(bin, "-sshd-pipe-path", sp, "-auditd-pipe-path", apth, "-app-events-output", d.outPath, "-log-level", "error")
 	d.cmd.Env = append(os.Environ(), "NODE_NAME=node-1")
